@@ -44,6 +44,7 @@ type ClientPlan struct {
 	StallAt   int
 	// the first step is enabled only after these clients have finished
 	StartAfterDone   []int
+	StartAfterPing   []int // start once these clients have had their barrier PING acknowledged (h2ping step)
 	StartAfterCancel bool
 	// clients with the same non-zero SessionGroup share a TLS session cache (resumption)
 	SessionGroup int
@@ -88,6 +89,7 @@ type Client struct {
 	quit chan struct{}
 
 	aborted        bool
+	Pinged         bool // the h2ping step has seen its acknowledgement
 	stalled        bool
 	AbortedAt      time.Duration
 	ConnectedAt    time.Duration
@@ -376,6 +378,9 @@ func (c *Client) exec(s *Step) error {
 			ch := c.notify
 			c.W.mu.Unlock()
 			if got {
+				c.W.mu.Lock()
+				c.Pinged = true
+				c.W.mu.Unlock()
 				return nil
 			}
 			if ended {
